@@ -260,14 +260,14 @@ PROPS.update({
         "level": "proof",
         "verus": [{"unit": U2, "fns": ["BlockType::serialize", "BlockType::serialized_len", "CompressedStreamWriter::finish", "DeltaSerializer::finish"]}],
         "native": [{"test": "verif_c08_messages", "pairs": []}, N_C14],
-        "kani": [K("k_rt_u8", "u8 round trip, exact length, layout"), K("k_rt_u16", "u16 round trip, little-endian layout"), K("k_rt_u32", "u32 round trip, layout"),
-                 K("k_rt_u64", "u64 round trip, layout"), K("k_rt_bool", "bool round trip; every byte decodes"), K("k_rt_heartbeat", "Heartbeat round trip"),
-                 K("k_rt_ipv4", "IPv4 round trip, tag 4 + octets"), K("k_rt_ipv6", "IPv6 round trip, tag 6 + octets"), K("k_rt_socket_addr", "SocketAddr round trip (v4 and v6)"),
-                 K("k_dec_ip_any_bytes", "every 17-byte string decodes as an IP address or fails cleanly; consumed length = announced length"),
-                 K("k_block_type_codes", "BlockType: exactly codes 0..2 decode, re-encode to the same byte"), K("k_dec_short_buffers", "fixed-width decoders fail cleanly on short buffers"),
-                 K("k_deletion_status_codes", "DeletionStatusMutation: exactly codes 0..2, round trip"), K("k_status_conversions", "status <-> wire code conversions keep the kind"),
+        "kani": [K("k_rt_u8", "u8 round trip, exact length, layout", tiers=("thorough",)), K("k_rt_u16", "u16 round trip, little-endian layout"), K("k_rt_u32", "u32 round trip, layout", tiers=("thorough",)),
+                 K("k_rt_u64", "u64 round trip, layout"), K("k_rt_bool", "bool round trip; every byte decodes", tiers=("thorough",)), K("k_rt_heartbeat", "Heartbeat round trip", tiers=("thorough",)),
+                 K("k_rt_ipv4", "IPv4 round trip, tag 4 + octets"), K("k_rt_ipv6", "IPv6 round trip, tag 6 + octets", tiers=("thorough",)), K("k_rt_socket_addr", "SocketAddr round trip (v4 and v6)"),
+                 K("k_dec_ip_any_bytes", "every 17-byte string decodes as an IP address or fails cleanly; consumed length = announced length", tiers=("thorough",)),
+                 K("k_block_type_codes", "BlockType: exactly codes 0..2 decode, re-encode to the same byte"), K("k_dec_short_buffers", "fixed-width decoders fail cleanly on short buffers", tiers=("thorough",)),
+                 K("k_deletion_status_codes", "DeletionStatusMutation: exactly codes 0..2, round trip"), K("k_status_conversions", "status <-> wire code conversions keep the kind", tiers=("thorough",)),
                  K("k_rt_node_digest", "NodeDigest round trip, field order heartbeat/last_gc/max_version"), K("k_message_type_codes", "message type / protocol version codes"),
-                 K("k_bad_cluster_roundtrip", "BadCluster is the 4-byte header"), K("k_delta_op_tag_codes", "op tags: exactly 0..2"),
+                 K("k_bad_cluster_roundtrip", "BadCluster is the 4-byte header", tiers=("thorough",)), K("k_delta_op_tag_codes", "op tags: exactly 0..2", tiers=("thorough",)),
                  K("k_len_set_max_version", "SetMaxVersion op: 9 bytes, tag 2 + u64 LE, round trip")],
         "assumptions": [A_STD, A_ZSTD, A_KANI, A_TEST_CFG],
         "level_text": "Proved by Kani on the real crate, loop-free over the full domain (hence complete, not bounded): for u8/u16/u32/u64/bool/Heartbeat/IpAddr/SocketAddr/NodeDigest/DeletionStatusMutation/BlockType/DeltaOpTag/MessageType/ProtocolVersion and the SetMaxVersion op, deserialize(serialize(x)) = x consuming exactly serialized_len(x) bytes, the bytes follow the documented little-endian / tag layout, and invalid tags or short buffers are errors, not panics. Proved by Verus: the stream writer's finish returns at least the end tag and DeltaSerializer::finish announces exactly the finished buffer's length.",
